@@ -34,6 +34,11 @@ def LookupHTTPHandler.key {U : Type} (urlString : U → Bytes) (d : LookupHTTPHa
   (d.handlerMethod, urlString d.handlerURL, d.clientID)
 def SignalPeer.key (d : SignalPeer) := (d.signalingID, d.localPeerID, d.remotePeerID)
 def GetPeer.key (d : GetPeer) := d.peerIDConstraint
+/-- The session handle itself is the request: two sessions between the same pair of peers are two
+sessions to handle. `S` is the abstract type of Go interface values (`==` is Go's interface `==`). -/
+def HandleSignalPeer.key {S : Type} (d : HandleSignalPeer S) := (d.signalingID, d.signalPeerSession)
+def BuildChannelSubscription.key {K : Type} (d : BuildChannelSubscription K) := (d.channelID, d.privKey)
+def DiscoverRoutes.key (d : DiscoverRoutes) := (d.protocolID, d.localPeerID, d.remotePeerID)
 
 /-! ### equivalent ⇔ same resolution-affecting parameters -/
 
@@ -135,10 +140,99 @@ theorem getPeer_iff (a b : GetPeer) : a.isEquivalent b = true ↔ a = b := by
   cases a; cases b
   simp [GetPeer.isEquivalent]
 
-/-- Every generated directive type is covered above. -/
+/-- An incoming signaling session is identified by the signaling channel and the session handle. -/
+theorem handleSignalPeer_iff {S : Type} [DecidableEq S] (a b : HandleSignalPeer S) :
+    a.isEquivalent b = true ↔ a = b := by
+  cases a; cases b
+  simp [HandleSignalPeer.isEquivalent]
+
+/-- A channel subscription is never de-duplicated (every directive wants its own handle)… -/
+theorem buildChannelSubscription_never {K : Type} [DecidableEq K] (a b : BuildChannelSubscription K) :
+    a.isEquivalent b = false := rfl
+
+/-- …so, trivially, it is merged only with an equal request (the direction the property states);
+the converse is false by design (`buildChannelSubscription_never`). -/
+theorem buildChannelSubscription_only_if {K : Type} [DecidableEq K] (a b : BuildChannelSubscription K) :
+    a.isEquivalent b = true → BuildChannelSubscription.key a = BuildChannelSubscription.key b := by
+  intro h; simp [BuildChannelSubscription.isEquivalent] at h
+
+/-- Route discovery: protocol, local and remote peer (the remote peer and the protocol used to be
+ignored: discoveries towards different peers were merged). -/
+theorem discoverRoutes_iff (a b : DiscoverRoutes) : a.isEquivalent b = true ↔ a = b := by
+  cases a; cases b
+  simp [DiscoverRoutes.isEquivalent, and_assoc]
+
+/-! ### across types -/
+
+/-- The type assertion at the head of an `IsEquivalent` succeeds only on the directive's own type
+(regenerated from the method sets: an interface that another directive type happens to satisfy
+breaks this). -/
+theorem assertOk_same (i j : Kind) : assertOk i j = true → i = j := by
+  cases i <;> cases j <;> simp [assertOk]
+
+/-- Directives of different types are never merged. -/
+theorem cross_type_never {U S K : Type} [DecidableEq S] [DecidableEq K] (urlString : U → Bytes)
+    (a b : AnyDirective U S K) (h : a.kind ≠ b.kind) :
+    AnyDirective.isEquivalent urlString a b = false := by
+  cases hb : assertOk a.kind b.kind
+  · simp [AnyDirective.isEquivalent, hb]
+  · exact absurd (assertOk_same _ _ hb) h
+
+/-- Any two directives that are merged are of the same type and have equal resolution-affecting
+parameters (the property, for every pair of directives of the covered types). -/
+theorem merged_only_if_same_request {U S K : Type} [DecidableEq S] [DecidableEq K] (urlString : U → Bytes)
+    (a b : AnyDirective U S K) (h : AnyDirective.isEquivalent urlString a b = true) :
+    a.kind = b.kind ∧
+    match a, b with
+    | .solicitProtocol x, .solicitProtocol y => x = y
+    | .establishLinkWithPeer x, .establishLinkWithPeer y => x = y
+    | .handleMountedStream x, .handleMountedStream y => x = y
+    | .dialTptAddr x, .dialTptAddr y => DialTptAddr.key x = DialTptAddr.key y
+    | .lookupTptAddr x, .lookupTptAddr y => x = y
+    | .lookupTransport x, .lookupTransport y => x = y
+    | .lookupRpcService x, .lookupRpcService y => x = y
+    | .lookupRpcClient x, .lookupRpcClient y => x = y
+    | .lookupHTTPHandler x, .lookupHTTPHandler y =>
+        LookupHTTPHandler.key urlString x = LookupHTTPHandler.key urlString y
+    | .signalPeer x, .signalPeer y => x = y
+    | .getPeer x, .getPeer y => x = y
+    | .handleSignalPeer x, .handleSignalPeer y => x = y
+    | .buildChannelSubscription x, .buildChannelSubscription y => x = y
+    | .discoverRoutes x, .discoverRoutes y => x = y
+    | _, _ => False := by
+  have hk : a.kind = b.kind := by
+    by_contra hne
+    rw [cross_type_never urlString a b hne] at h
+    exact Bool.noConfusion h
+  refine ⟨hk, ?_⟩
+  cases a <;> cases b <;> simp [AnyDirective.kind] at hk <;>
+    simp only [AnyDirective.isEquivalent, Bool.and_eq_true] at h
+  · exact (solicitProtocol_eq _ _).mp h.2
+  · exact (establishLinkWithPeer_iff _ _).mp h.2
+  · exact (handleMountedStream_iff _ _).mp h.2
+  · exact (dialTptAddr_iff _ _).mp h.2
+  · exact (lookupTptAddr_iff _ _).mp h.2
+  · exact (lookupTransport_iff _ _).mp h.2
+  · exact (lookupRpcService_iff _ _).mp h.2
+  · exact (lookupRpcClient_iff _ _).mp h.2
+  · exact (lookupHTTPHandler_iff urlString _ _).mp h.2
+  · exact (signalPeer_iff _ _).mp h.2
+  · exact (getPeer_iff _ _).mp h.2
+  · exact (handleSignalPeer_iff _ _).mp h.2
+  · exact absurd h.2 (by simp [buildChannelSubscription_never])
+  · exact (discoverRoutes_iff _ _).mp h.2
+
+/-- Every generated directive type is covered above: all 14 `IsEquivalent` implementations of the
+repository (`grep -rn 'IsEquivalent(other directive.Directive)'`). -/
 theorem all_covered : directiveNames =
     ["SolicitProtocol", "EstablishLinkWithPeer", "HandleMountedStream", "DialTptAddr", "LookupTptAddr",
-     "LookupTransport", "LookupRpcService", "LookupRpcClient", "LookupHTTPHandler", "SignalPeer", "GetPeer"] := rfl
+     "LookupTransport", "LookupRpcService", "LookupRpcClient", "LookupHTTPHandler", "SignalPeer", "GetPeer",
+     "HandleSignalPeer", "BuildChannelSubscription", "DiscoverRoutes"] := rfl
+
+/-- …and the cross-type statements range over exactly those types. -/
+theorem all_kinds_covered : Kind.all.length = directiveNames.length ∧ ∀ k : Kind, k ∈ Kind.all := by
+  refine ⟨rfl, ?_⟩
+  intro k; cases k <;> simp [Kind.all]
 
 /-! ### non-vacuity -/
 
@@ -150,5 +244,20 @@ example : SolicitProtocol.isEquivalent ⟨[1], [], [], 0⟩ ⟨[1], [], [], 7⟩
 
 example : ∃ a b : DialTptAddr, ∃ oa ob, a.dialerOpts = some oa ∧ b.dialerOpts = some ob ∧ oa.backoff = ob.backoff :=
   ⟨⟨some ⟨[], 0⟩, [], []⟩, ⟨some ⟨[], 0⟩, [], []⟩, ⟨[], 0⟩, ⟨[], 0⟩, rfl, rfl, rfl⟩
+
+/-- Two distinct session handles on the same channel: not equivalent; the same handle: equivalent. -/
+example : HandleSignalPeer.isEquivalent (S := Nat) ⟨[1], 1⟩ ⟨[1], 2⟩ = false ∧
+    HandleSignalPeer.isEquivalent (S := Nat) ⟨[1], 1⟩ ⟨[1], 1⟩ = true := by decide
+
+/-- Same protocol and local peer, different remote peer: not equivalent (was merged before the fix). -/
+example : DiscoverRoutes.isEquivalent ⟨[1], [2], [3]⟩ ⟨[1], [2], [4]⟩ = false := by decide
+
+/-- `cross_type_never` is not vacuous: two directives of different kinds exist… -/
+example : (AnyDirective.getPeer (U := Bytes) (S := Nat) (K := Nat) ⟨[]⟩).kind ≠
+    (AnyDirective.lookupTptAddr (U := Bytes) (S := Nat) (K := Nat) ⟨[]⟩).kind := by decide
+
+/-- …and `merged_only_if_same_request` has a merged pair. -/
+example : AnyDirective.isEquivalent (U := Bytes) (S := Nat) (K := Nat) id (.getPeer ⟨[7]⟩) (.getPeer ⟨[7]⟩) = true := by
+  decide
 
 end Bifrost.Props.C37
